@@ -904,8 +904,31 @@ class Runner:
                     self.fail(m, "repeat-end", f"repeating {_brief(spec)} at the end of the history returned "
                               f"{_short(fp(r))}, first time {_short(f1)}")
             self.reused_buffer()
+            self.ambient_errstate()
         except Stop:
             pass
+
+    def ambient_errstate(self):
+        """(h) the caller's ambient NumPy error state is not the library's business: a rate whose denominator is zero is NaN
+        by a masked division that never evaluates 0/0, so `np.errstate(all="raise")` around a query changes nothing -
+        same values, same shapes, no FloatingPointError (objects lacking a class, scalar and array thresholds)."""
+        inp = self.inp
+        kw = dict(score_class=inp["sc"], equal_class=inp["ec"])
+        objs = [("no negatives", self.Scores(list(self.mpos) or [0.5], [], nb_easy_pos=inp["ep"], **kw)),
+                ("no positives", self.Scores([], list(self.mneg) or [0.5], nb_easy_neg=inp["en"], **kw)),
+                ("the object", self.s)]
+        thr = np.array([0.0, 0.5])
+        for what, o in objs:
+            for name in ("tpr", "fnr", "tnr", "fpr", "topr", "tonr"):
+                for arg in (thr, 0.25):
+                    plain = self.call(getattr(o, name), arg)
+                    with np.errstate(all="raise"):
+                        strict = self.call(getattr(o, name), arg)
+                    self.evals += 1
+                    if plain[0] == "ok" and fp(strict) != fp(plain):
+                        self.fail(name, "repeat", f"{name}({'array' if isinstance(arg, np.ndarray) else 'scalar'}) on an object with "
+                                  f"{what} under np.errstate(all='raise'): {_short(fp(strict))}; without it {_short(fp(plain))}")
+                        return
 
     def reused_buffer(self):
         """(g) ONE threshold array, refilled in place by the caller between two consecutive calls of the same query (a
